@@ -837,7 +837,33 @@ impl WorldC {
             self.viol(out, "C05", "id-not-previous-plus-one", json!({}), format!("new proposal id {} after {}", p.id, m.max_id));
         }
         let (snapshot, changed_earlier, cur_total, cur_w) = if m.flex {
-            let members_before = ctx.map(|c| c.2.clone()).unwrap_or_else(|| self.cur_members.clone());
+            let mut members_before = ctx.map(|c| c.2.clone()).unwrap_or_else(|| self.cur_members.clone());
+            // "just before the Propose": a group change made earlier in this very transaction (an executed proposal
+            // that first updates the group and then proposes) counts — take the group as its last completed call
+            // before the Propose frame left it
+            if let Some((evs, _, _)) = ctx {
+                let mut last_group: Option<Members> = None;
+                for ev in evs.iter() {
+                    if let Event::Frame(f) = ev {
+                        if f.addr == self.group && f.outcome.is_ok() {
+                            if let Some(c) = f.post.cw4() {
+                                if c.ok {
+                                    last_group = Some(crate::c_group::members_map(&c.members));
+                                }
+                            }
+                        }
+                        if f.addr == m.addr && f.entry == Entry::Execute && f.outcome.is_ok() {
+                            let is_propose = cosmwasm_std::from_json::<Value>(&f.msg).ok().map(|v| v.get("propose").is_some()).unwrap_or(false);
+                            if is_propose {
+                                break;
+                            }
+                        }
+                    }
+                }
+                if let Some(g) = last_group {
+                    members_before = g;
+                }
+            }
             let changed = self.block_start_members != members_before;
             let cur_total: u128 = members_before.values().map(|w| *w as u128).sum();
             let cw = members_before.get(p.proposer.as_str()).cloned();
